@@ -2,6 +2,7 @@
 from trkgen import *
 
 ID = "C13"
+THEOREM_MODULES = ["SimVerif.Props.C13", "SimVerif.Props.C13b"]
 THEOREM_MODULE = "SimVerif.Props.C13"
 NONTRIVIAL_FLAGS = {"gallery-full", "feature-not-collectable", "continuation", "visual-attachment", "handed-out"}
 RULE = ("VisualSORT / BatchVisualSORT (and SORT kinds for the box histories) lifetimes of up to several hundred updates with history lengths 1..10, visual_max_observations 1..8 (minimal track length <= it), "
@@ -14,7 +15,7 @@ TRUSTED_BASE = ["Lean 4.33 kernel", "axioms: propext, Quot.sound, Classical.choi
 ASSUMPTIONS = ["visual_max_observations >= 1 and minimal track length <= it (asserted by the options builder)", "history length > 0"]
 LEVEL_TEXT = ("Lean 4 theorems by induction over the update sequence, for all quality sequences: a gallery never exceeds visual_max_observations entries; the collected count is the number of stored features; only entries carrying a feature survive an update, the newest entry is first and the only one with a box; "
               "when the gallery is full the evicted entry has minimal quality among the stored features; a continuing update stores the new feature iff the detection meets the collect thresholds (a track's first feature is exempt); "
-              "after k pushes a bounded history holds exactly the last min(k, H) entries in arrival order, the last one being the entry echoed in the record. Differential run with full gallery / history dumps after every call.")
+              "after k pushes a bounded history holds exactly the last min(k, H) entries in arrival order, the last one being the entry echoed in the record. Differential run with full gallery / history dumps after every call. In every reachable state of a VisualSORT tracker — any sequence of predict, batch predict, skip, wasted, clear_wasted, set_auto_waste calls from the empty tracker — every stored track holds between 1 and visual_max_observations observations, at most one of them with a box, reports the number of stored features as its collected count, and keeps histories of at most kept_history_length entries (C13_reachable, by induction over the calls).")
 LEVEL_NOTE = "Trusted: Lean kernel; model<->code tie sampled with complete gallery/history dumps."
 TECHNIQUE = "Lean 4 proof (invariants by induction over updates, stable-sort lemmas) with differential correspondence check"
 
